@@ -263,6 +263,50 @@ func vhCompare(g *SymbolGraph, m *vhModel, step string, knownEdgeKindLoss bool) 
 func vhC17Histories(steps int, versions bool) {
 	g := NewSymbolGraph()
 	m := &vhModel{}
+	vhC17Steps(&g, m, steps, versions)
+	vhCompare(&g, m, "end", false)
+}
+
+// histories that continue from prepared states no three-step history reaches: a node with one edge to a node and
+// one to a key that was never added, a chain of three nodes, a node with edges of two kinds to the same node
+func vhC17FromStates(steps int) {
+	g := NewSymbolGraph()
+	m := &vhModel{}
+	addNode := func(name string) {
+		_, err := g.AddConst(CreateConstNode{Data: metadata.ConstMeta{SymNodeMeta: metadata.SymNodeMeta{
+			Name: name, Node: &ast.Ident{Name: name, NamePos: 1}, FVersion: vhVersion("1")}}})
+		symxAssert(err == nil, "C17.add-node.no-error")
+		m.addNode(name, "1", common.SymKindConstant)
+	}
+	addEdge := func(from, to string, k SymbolEdgeKind) {
+		g.AddEdge(vhKey(from, "1"), vhKey(to, "1"), k, nil)
+		m.addEdge(from, to, k)
+	}
+	switch symxChoice("state", 3) {
+	case 0:
+		addNode("a")
+		addNode("b")
+		addEdge("a", "b", "x")
+		addEdge("a", "c", "y") // c was never added
+	case 1:
+		addNode("a")
+		addNode("b")
+		addNode("c")
+		addEdge("a", "b", "x")
+		addEdge("b", "c", "x")
+	default:
+		addNode("a")
+		addNode("b")
+		addEdge("a", "b", "x")
+		addEdge("a", "b", "y")
+		addEdge("b", "a", "x")
+	}
+	symxCover("C17.prepared-state")
+	vhC17Steps(&g, m, steps, false)
+	vhCompare(&g, m, "end", false)
+}
+
+func vhC17Steps(g *SymbolGraph, m *vhModel, steps int, versions bool) {
 	for s := 0; s < steps; s++ {
 		tag := "s" + string(rune('0'+s))
 		switch symxChoice(tag+".op", 5) {
@@ -304,10 +348,11 @@ func vhC17Histories(steps int, versions bool) {
 			m.removeNode(name)
 		}
 	}
-	vhCompare(&g, m, "end", false)
 }
 
-func vh_C17_histories3_Q() { vhC17Histories(3, false) }
+func vh_C17_histories3_Q()   { vhC17Histories(3, false) }
+func vh_C17_from_states2_Q() { vhC17FromStates(2) }
+func vh_C17_from_states3_T() { vhC17FromStates(3) }
 
 func vh_C17_versions3_Q()  { vhC17Histories(3, true) }
 func vh_C17_histories4_T() { vhC17Histories(4, false) }
